@@ -27,9 +27,13 @@ def _staged(*stages):
                 if name == 'values' and 'spec' not in keys:
                     continue
                 level = replay['input'].get('level')
-                if name == 'sched' and 'case' not in keys and level != 'falsy':
+                if name == 'sched' and 'case' not in keys and level not in ('falsy', 'nested-names'):
                     continue
                 if name == 'histories' and 'history' not in keys and level != 'unreadable-entry':
+                    continue
+                if name == 'interrupts' and level != 'tick-hang':
+                    continue
+                if name != 'interrupts' and level == 'tick-hang':
                     continue
             before = dict(report.coverage)
             fn(prop, report, tier, seed, replay)
@@ -46,6 +50,7 @@ def _staged(*stages):
 
 
 REGISTRY['C09'] = _staged(('values', props_values.run), ('histories', props_cache.run_histories))
+REGISTRY['C03'] = _staged(('sched', props_sched.run), ('histories', props_cache.run_histories))
 REGISTRY['C01'] = _staged(('sched', props_sched.run), ('histories', props_cache.run_histories))
 REGISTRY['C02'] = _staged(('sched', props_sched.run), ('histories', props_cache.run_histories))
 
@@ -60,3 +65,4 @@ REGISTRY['C19'] = props_log.run
 
 import props_intr
 REGISTRY['C14'] = props_intr.run
+REGISTRY['C11'] = _staged(('sched', props_sched.run), ('interrupts', props_intr.run_termination_stage))
